@@ -38,6 +38,8 @@ FILTERS = {"negate": negate, "cumsum": cumsum, "double": double}
 def pool(T, kind):
     t = np.arange(T)
     if kind == "bin":
+        if T > 10:  # the full cube is only enumerated for short series; longer ones use eight fixed binary patterns
+            return [np.array(v, dtype=float) for v in (np.zeros(T), np.ones(T), t % 2, (t // 2) % 2, (t % 3 == 0), (t < T // 2), (t * t) % 2, ((t * 7) % 5 < 2))]
         return [np.array(b, dtype=float) for b in itertools.product((0.0, 1.0), repeat=T)]
     if kind == "three":
         return [np.array(v, dtype=float) for v in (t % 3, (2 - t) % 3, np.where(t % 2 == 0, 0, 2), np.where(t < 2, 2, (t % 2)), np.where(t == T - 1, 2, 1), np.ones(T))]
@@ -271,16 +273,16 @@ def main(ctx):
     cells = []
     for name, o in option_lattice(ctx.tier):
         if name == "msm":
-            Ts = [8, 9] if o["calc"] == "default" else [4, 8, 5]
+            Ts = ([8, 9] if ctx.quick else [8, 9, 30]) if o["calc"] == "default" else [4, 8, 5]
             parts = 2 if o["calc"] == "default" else 1
         elif name == "gsl":
-            Ts = [4, 5, 8] if ctx.quick else [4, 5, 6, 8]
+            Ts = [4, 5, 8] if ctx.quick else [4, 5, 6, 8, 25]
             parts = 1
         elif name == "likelihood":
-            Ts = [3, 5, 4]
+            Ts = [3, 5, 4] if ctx.quick else [3, 5, 4, 25]
             parts = 1
         else:
-            Ts = [3, 4, 5] if ctx.quick else [3, 4, 5, 6]
+            Ts = [3, 4, 5] if ctx.quick else [3, 4, 5, 6, 25]
             parts = 1
         for p in range(parts):
             cells.append({"options": [(name, o)], "Ts": Ts, "tier": ctx.tier, "part": p, "parts": parts})
